@@ -139,15 +139,19 @@ impl<Res> InFlightRequests<Res> {
         expired_error: impl Fn() -> Res,
     ) -> Poll<Option<u64>> {
         loop {
-            let request_id = match ready!(self.deadlines.poll_expired(cx)) {
-                Some(expired) => expired.into_inner(),
+            let expired = match ready!(self.deadlines.poll_expired(cx)) {
+                Some(expired) => expired,
                 None => return Poll::Ready(None),
             };
+            // How long ago the timer fired.
+            let late = tokio::time::Instant::now().saturating_duration_since(expired.deadline());
+            let request_id = expired.into_inner();
             if let Some(request_data) = self.request_data.get_mut(&request_id) {
-                if !request_data.deadline_remainder.is_zero() {
+                let rest = request_data.deadline_remainder.saturating_sub(late);
+                if !rest.is_zero() {
                     // The timer was armed with a clamped timeout: arm it with the rest.
-                    let timeout = request_data.deadline_remainder.min(MAX_DEADLINE_TIMEOUT);
-                    request_data.deadline_remainder -= timeout;
+                    let timeout = rest.min(MAX_DEADLINE_TIMEOUT);
+                    request_data.deadline_remainder = rest - timeout;
                     request_data.deadline_key = self.deadlines.insert(request_id, timeout);
                     continue;
                 }
